@@ -20,7 +20,7 @@ import (
 func init() {
 	register(&Check{ID: "C15", Run: runC15, Shards: 16, MinOutcomes: 5})
 	Replayers["c15"] = func(raw json.RawMessage) (string, bool) {
-		var c c15Case
+		c := c15Case{Prev: -1}
 		json.Unmarshal(raw, &c)
 		w := newC15World()
 		k, msg, _ := c15One(w, c)
@@ -37,6 +37,11 @@ type c15Case struct {
 	K1    int `json:"k1"` // B exponent
 	K2    int `json:"k2"` // result exponent
 	Flags int `json:"flags"`
+	// Prev: if >= 0, the same reader is first polled once with this flags byte
+	// (and raw byte PrevRaw); the second poll is the one judged.
+	Prev    int `json:"prev"`
+	PrevRaw int `json:"prev_raw"`
+	hasPrev bool
 }
 
 type c15World struct {
@@ -141,6 +146,11 @@ func c15One(cw *c15World, c c15Case) (string, string, string) {
 	}
 	if err != nil {
 		return "C15/reader-refused-for-supported-record", fmt.Sprintf("linearisation %d analog format %d: %v", c.Lin, c.Fmt, err), ""
+	}
+	if c.Prev >= 0 {
+		cw.w.BMC.Cfg.Sensors = map[byte][]byte{0x37: {byte(c.PrevRaw), byte(c.Prev), 0xFF, 0xFF}}
+		cw.w.T.BeginOp()
+		guard(func() { reader.Read(cw.w.Ctx, cw.sess) })
 	}
 	cw.w.BMC.Cfg.Sensors = map[byte][]byte{0x37: {byte(c.Raw), byte(c.Flags), 0x00}}
 	before := len(cw.w.T.Log)
@@ -248,6 +258,9 @@ func runC15(r *rep.R) {
 	cw := newC15World()
 	var idx int64
 	do := func(c c15Case) {
+		if !c.hasPrev {
+			c.Prev = -1
+		}
 		idx++
 		if !r.Mine(idx) {
 			return
@@ -353,6 +366,16 @@ func runC15(r *rep.R) {
 	for lin := 0; lin < 128; lin++ {
 		for f := 0; f < 4; f++ {
 			do(c15Case{Raw: 1, Fmt: f, Lin: lin, M: 1, B: 0, K1: 0, K2: 0, Flags: 0xC0})
+		}
+	}
+	// (f) the same reader polled twice: the second reading must not depend on the first
+	for _, prev := range []int{0x00, 0x20, 0x40, 0x60, 0x80, 0xA0, 0xC0, 0xE0, 0xFF} {
+		for _, fl := range []int{0x00, 0x20, 0x40, 0x60, 0x80, 0xA0, 0xC0, 0xE0} {
+			for _, lin := range []int{0, 8} {
+				for _, raw := range []int{0, 0x7F, 0x80, 0xFF} {
+					do(c15Case{Raw: raw, Fmt: 2, Lin: lin, M: 3, B: -5, K1: 1, K2: -1, Flags: fl, Prev: prev, PrevRaw: raw ^ 0xFF, hasPrev: true})
+				}
+			}
 		}
 	}
 	r.Assume("tolerance: |got - y| <= 8*2^-53*(|M*x| + |B|*10^K1)*10^K2 (forward error bound of the expression as written); linearised results must lie in the hull of L over [y-tol, y+tol] widened by 16 ulp; intervals containing a singularity or domain boundary of L are not judged")
